@@ -36,6 +36,7 @@ class Cfg:
     p_restricted: int = 0  # percentage of calculation / sort expressions using an engine-restricted function
     p_wrap: int = 10  # percentage of predicates combined with a constant-foldable operand (OR[p, FALSE], AND[TRUE, p], ...)
     p_cfun: int = 0  # percentage of calculations / sorts / selections of the main program using the engine-specific function
+    p_meth: int = 0  # percentage of iteration-engine calculations wrapped in a method of the value (int.bit_length)
     p_member: int = 0  # percentage of predicates that are a membership test most rows pass (wide ascending / descending range)
     expr_depth: int = 2
     prelude: float = 0.0  # probability of starting from a drawn SELECT state (subset of sort/proj/dedup/slice)
@@ -364,6 +365,8 @@ def st_program(draw, cfg, universe=None, leaves=None):
             hidden = [t for i in sorted(leaf_indices(main)) for t in leaves[i][1] if t not in cols]
             node = draw(st_unary_node(main, cols, universe, cfg.unary, cfg, hidden=hidden))
             node = _steer_unary(node, main, avoid, cols)
+            if cfg.p_meth and node is not None and node[0] == "calc" and eng != 0 and draw(st.integers(0, 99)) < cfg.p_meth:
+                node = ("calc", node[1], node[2], ("meth", node[3]))
             if cfg.p_cfun and node is not None and node[0] in ("calc", "sort", "sel") and cols and draw(st.integers(0, 99)) < cfg.p_cfun:
                 # the user-defined function means something else in every engine: whatever evaluates this operation
                 # must be the engine the program put it in
